@@ -1021,7 +1021,7 @@ def oracle(ctx):
             ctx.add_failure("oracle", "B3:" + k, s, f"real serve() ({r['name']}): {detail}", witness=_b3_witness(r))
     # oracle B4: the hash-check bypass (steps with a stored hash are dispatched without looking at resources
     # or holds) on a second build after inputs changed: the commands still obey both limits
-    b4 = [(k,) + LP.scenario_checking(k) for k in ("resource", "hold")]
+    b4 = [(k,) + LP.scenario_checking(k) for k in ("resource", "hold", "dynamic")]
     for _ in range(ctx.scale(8, 120)):
         sub = __import__("random").Random(ctx.rng.getrandbits(48))
         b4.append(("gen",) + LP.gen_checking_history(sub))
